@@ -641,6 +641,33 @@ Proof.
   apply (K (S "q", Some (DCat [DId (S "b"); DBit (S "w") 2]))); [right; left; reflexivity|]. vm_compute. left. reflexivity.
 Qed.
 
+(* the same with the input class as ONE boolean predicate on the document (inst_in_class, Proofs/VElabRunX.v: the
+   module is not a cell and does not instantiate itself here, selects inside the ranges the nets have at that point -
+   env_before, computed by the reader model on the text before the instance -, no glob names, the ports the
+   instantiated definition has so far based at 0, no port declaration later in the body, no later module re-declaring
+   m or declaring the instantiated module), and no intermediate state in the statement: the connection clause of
+   C06_full for named port maps. *)
+Theorem C06_full_connections_named : forall pre m post before m' i params attrs l after n,
+  elab (pre ++ m :: post) = Ok n ->
+  vm_body m = before ++ IInst m' i params attrs (CNamed l) :: after ->
+  inst_in_class pre m post before m' l after = true ->
+  forall pc e r, In pc l -> In (e, r) (conn_meaning i (env_before pre m before) pc) ->
+  exists d, nth_error (nv_defs n) (pos_before pre m before) = Some d /\ In e (net_of r d).
+Proof. exact module_instance_class. Qed.
+Print Assumptions C06_full_connections_named.
+
+Example C06_full_connections_named_witness :
+  let top := nth 1 ex_doc4 {| vm_name := []; vm_cell := true; vm_params := []; vm_attrs := []; vm_header := []; vm_body := [] |} in
+  let l := [(S "p", Some (DAtom (DPart (S "a") 1 0))); (S "q", Some (DCat [DId (S "b"); DBit (S "w") 2])); (S "r", None)] in
+  vm_body top = firstn 4 (vm_body top) ++ IInst (S "sub") (S "u1") [] [] (CNamed l) :: skipn 5 (vm_body top) /\
+  inst_in_class (firstn 1 ex_doc4) top (skipn 2 ex_doc4) (firstn 4 (vm_body top)) (S "sub") l (skipn 5 (vm_body top)) = true /\
+  pos_before (firstn 1 ex_doc4) top (firstn 4 (vm_body top)) = 1%nat /\
+  conn_meaning (S "u1") (env_before (firstn 1 ex_doc4) top (firstn 4 (vm_body top))) (S "q", Some (DCat [DId (S "b"); DBit (S "w") 2])) =
+    [(EInst (S "u1") (LName (S "q")) 1, (S "b", 0)); (EInst (S "u1") (LName (S "q")) 0, (S "w", 2))] /\
+  (* a select outside the declared range is outside the class *)
+  inst_in_class (firstn 1 ex_doc4) top (skipn 2 ex_doc4) (firstn 4 (vm_body top)) (S "sub") [(S "p", Some (DAtom (DBit (S "a") 9)))] [] = false.
+Proof. vm_compute. repeat split. Qed.
+
 (* ANSI headers: a direction, and the range given with it or after it, stays in force for the names that follow
    until the next direction keyword (former finding V06-ansi-inherit-dir) *)
 Theorem C06_ansi_header_inherits : forall dr rg n rg' n' rest,
